@@ -56,9 +56,21 @@ NoFS9(f) == NoFile
 Types == {[name |-> "", opts |-> <<>>], [name |-> "sampling", opts |-> <<>>], [name |-> "foo", opts |-> <<Kv("copies", IntV(2))>>]}
 SomeTargets == {[name |-> "", opts |-> <<>>], [name |-> "chip0", opts |-> <<>>],
                 [name |-> "X8_01", opts |-> <<Kv("shots", IntV(10)), Kv("label", Str("run")), Kv("cut", Lst(<<IntV(1), Fl(5, 2), Bool(TRUE)>>))>>]}
+\* tdm programs assembled through the API the way the repository's tests do: declared p-arrays (one of them with two rows) in the variables,
+\* passed by name, next to arrays passed by value (which the serialiser hoists into declarations of their own)
+TdmVars == << [n |-> "p0", v |-> ArrOf("float", 1, 2, LAMBDA i, j : Fl(2 * j + 1, 4))], [n |-> "p1", v |-> ArrOf("float", 2, 2, LAMBDA i, j : Fl(i, 8 * j))],
+              [n |-> "p12", v |-> ArrOf("int", 3, 1, IntEl)] >>
+TdmType == [name |-> "tdm", opts |-> <<Kv("temporal_modes", IntV(2))>>]
+ByValue == {ArrOf("int", 2, 2, IntEl), ArrOf("float", 1, 3, FltEl), ArrOf("complex", 2, 3, CpxEl), ArrOf("float", 1, 2, LAMBDA i, j : Fl(2 * j + 1, 4))}
+TdmProgs == {[MkProg([name |-> "", opts |-> <<>>], TdmType, ops) EXCEPT !.vars = SubSeq(TdmVars, 1, nv)] :
+               nv \in 2..3,
+               ops \in {<<Op("G", TRUE, <<PName("p0"), a>>, <<Kv("k", PName("p1"))>>, <<0>>)>> : a \in ByValue}
+                       \cup {<<Op("G", TRUE, <<PName("p1")>>, <<Kv("u", a), Kv("w", b)>>, <<0, 1>>), Op("H", TRUE, <<b, PName("p0")>>, <<>>, <<1>>)>> : a \in ByValue, b \in ByValue \cup {Fl(1, 2)}}
+                       \cup {<<Op("G", TRUE, <<PName("p0"), PName("p1")>>, <<>>, <<0>>)>>}}
 VARIABLES p, done
 Init == done = FALSE /\ \/ \E o \in Ops, tg \in Targets : p = MkProg(tg, [name |-> "", opts |-> <<>>], <<o>>)
                         \/ \E tg \in SomeTargets, ty \in Types, o \in {x \in Ops : x.op \in {"Vac", "K"}} : p = MkProg(tg, ty, <<o>>)
+                        \/ p \in TdmProgs
                         \/ \E o \in TwoArrayOps : p = MkProg([name |-> "", opts |-> <<>>], [name |-> "", opts |-> <<>>], <<o>>)
                         \/ \E o1 \in TwoArrayOps, o2 \in TwoArrayOps : p = MkProg([name |-> "", opts |-> <<>>], [name |-> "", opts |-> <<>>], <<o1, o2>>)
                         \/ \E o \in Ops : p = MkProg([name |-> "", opts |-> <<>>], [name |-> "foo", opts |-> <<Kv("copies", IntV(2))>>], <<o>>)
